@@ -2573,8 +2573,15 @@ impl SctpInner {
                 .iter()
                 .find_map(|w| w.upgrade().filter(|d| d.id == channel_id))
             {
-                dc.state
-                    .store(DataChannelState::Closing as usize, Ordering::SeqCst);
+                // Closing an already closed channel is a no-op (no second Close event).
+                let closed = DataChannelState::Closed as usize;
+                let closing = DataChannelState::Closing as usize;
+                let moved = dc.state.fetch_update(Ordering::SeqCst, Ordering::SeqCst, |s| {
+                    (s != closed).then_some(closing)
+                });
+                if moved.is_err() {
+                    return Ok(());
+                }
             }
         }
 
@@ -2594,9 +2601,10 @@ impl SctpInner {
                 .iter()
                 .find_map(|w| w.upgrade().filter(|d| d.id == channel_id))
             {
-                dc.state
-                    .store(DataChannelState::Closed as usize, Ordering::SeqCst);
-                dc.send_event(DataChannelEvent::Close);
+                let closed = DataChannelState::Closed as usize;
+                if dc.state.swap(closed, Ordering::SeqCst) != closed {
+                    dc.send_event(DataChannelEvent::Close);
+                }
             }
         }
 
